@@ -1075,6 +1075,28 @@ def _collect_concrete_array(ip, st, t, a, rt):
     return NotImplemented
 
 
+@reg('std::array::<impl [T; N]>::map')
+def _array_map(ip, st, t, a, rt):
+    """`[T; N]::map(f)` for a statically known N <= 8: [f(a[0]), .., f(a[N-1])], in index order (core::array: `drain_array_with` front to back)."""
+    v = deref(a[0])
+    n = None
+    if isinstance(v, I.St) and v.adt == 'array':
+        n = len(v.fields)
+    else:
+        m = re.match(r'^\[(.+); (\d+)\]$', (getattr(v, 'ty', None) or '').strip())
+        if m:
+            n = int(m.group(2))
+        else:
+            sub = t.get('substs') or []
+            for x in sub:
+                if str(x).isdigit():
+                    n = int(x)
+    if n is None or n > 8:
+        return NotImplemented
+    out = [call_fn_value(ip, a[1], [I.get_index(v, RF.const(i))], '?') for i in range(n)]
+    return I.arr(out)
+
+
 # --- by-value iteration over a small constant array (`for [i, j, k] in TABLE`): concrete while unrolling ------------------
 @reg('std::array::iter::<impl std::iter::IntoIterator for [T; N]>::into_iter')
 def _array_into_iter(ip, st, t, a, rt):
